@@ -90,10 +90,24 @@ func checkC12(c Node) Verdict {
 	v := Verdict{OK: true, SQL: sql, Sig: sig}
 	ties, _ := c["ties"].(bool)
 	doc := FromTagged(c["doc"]).(map[string]any)
+	sideEffects := false
+	for _, f := range sig {
+		sideEffects = sideEffects || strings.HasPrefix(f, "qual:")
+	}
+	ReExec = !sideEffects
 	out := Run(doc, sql, false)
+	ReExec = false
 	v.Execs++
 	if out.Panic != nil {
 		return fail("panic", sql, sig, "panic escaped the API: %v", out.Panic)
+	}
+	if out.Again {
+		// the same Query object evaluated again (on the same, untouched input): an equal result
+		v.Execs++
+		same := out.Panic2 == nil && out.Err2 == nil && (Canon(any(out.Rows2)) == Canon(any(out.Rows)) || (groupingOrJoin(q) && canonBag(out.Rows2) == canonBag(out.Rows)))
+		if !same {
+			return fail("nondet", sql, append(sig, "reexec"), "the same Query executed twice: first %s, then %s (err %v, panic %v)", Canon(any(out.Rows)), Canon(any(out.Rows2)), out.Err2, out.Panic2)
+		}
 	}
 	want, wantErr := ExpectedRows(c)
 	if out.Err != nil {
